@@ -70,7 +70,7 @@ def V(family, key, what, witness, native=None):
 
 # -------------------------------------------------------------------------------------------------------- round trip: molecules
 
-def build(s, form):
+def build(s, form, offset=None):
     """molecule of the claimed domain from SMILES.  form: 'kekule' (Kekule form, 2D coordinates from clean2d), 'kekule-rdkit2d'
     (Kekule form, coordinates from RDKit's depictor, which honours double-bond labels: brings cis geometry in chains),
     'aromatic' (thiele form, clean2d).  returns (molecule, has 2D coordinates, info)"""
@@ -104,6 +104,11 @@ def build(s, form):
     if ok2d:
         f, u = O.make_consistent(m)
         info = {'ct_relabelled_from_2d': f, 'ct_undefined_2d': u}
+    if offset is not None:
+        # atom numbers permuted and shifted: atom order != number order, numbers > 99 (> 999: V3000 / MRV only)
+        from bounded import domains as D
+        m, _ = D.renumber(m, random.Random(f'{env.SEED}:renumber:{s}'), offset=offset)
+        info['renumbered'] = 1
     return m, ok2d, info
 
 
@@ -138,7 +143,7 @@ def cmp_mol(O, m, o, stereo, tag):
 def check_mol(a):
     """a: {'smiles','form','pair','title','meta'} -> (violations, info)"""
     from oracles import o11_records as O
-    m, ok2d, _ = build(a['smiles'], a['form'])
+    m, ok2d, _ = build(a['smiles'], a['form'], a.get('offset'))
     return check_mol_obj(O, m, ok2d, a)
 
 
@@ -148,6 +153,7 @@ def check_mol_obj(O, m, ok2d, a, pairs=None):
     m.meta.clear()
     m.meta.update(a.get('meta') or {'k': 'v'})
     claimed = a['form'].startswith('kekule') and ok2d
+    tag = f'{a["smiles"]}|{a["form"]}' + (f'|+{a["offset"]}' if a.get('offset') is not None else '')
     if claimed and O.explicit_h_on_stereocentre(m):
         claimed = False
         info['filtered_explicit_h'] = 1
@@ -161,16 +167,16 @@ def check_mol_obj(O, m, ok2d, a, pairs=None):
             text = write(pair, [m])
             got = list(reader(pair, text))
         except Exception as e:
-            vs.append(V(f'rt:{pair}:exc', f'rt:{pair}:exc:{where(e)}:{a["smiles"]}|{a["form"]}', f'{pair}: {where(e)} on a valid molecule {a["smiles"]}',
+            vs.append(V(f'rt:{pair}:exc', f'rt:{pair}:exc:{where(e)}:{tag}', f'{pair}: {where(e)} on a valid molecule {a["smiles"]}',
                         wit, repr(e)))
             continue
         if len(got) != 1:
-            vs.append(V(f'rt:{pair}:count', f'rt:{pair}:count:{a["smiles"]}|{a["form"]}', f'{pair}: one record written, {len(got)} read back ({a["smiles"]})', wit,
+            vs.append(V(f'rt:{pair}:count', f'rt:{pair}:count:{tag}', f'{pair}: one record written, {len(got)} read back ({a["smiles"]})', wit,
                         len(got)))
             continue
         o = got[0]
         for field, e, g in cmp_mol(O, m, o, claimed, a):
-            vs.append(V(f'rt:{pair}:{field}', f'rt:{pair}:{field}:{a["smiles"]}|{a["form"]}',
+            vs.append(V(f'rt:{pair}:{field}', f'rt:{pair}:{field}:{tag}',
                         f'{pair}: {field} not preserved for {a["smiles"]} ({a["form"]}): written {e!r}, read {g!r}', wit, {'expected': e, 'got': g}))
         vs.extend(text_violations(O, m, o, pair, wit))
         if P()[pair][2] == 'sdf' and not vs:
@@ -183,7 +189,7 @@ def check_mol_obj(O, m, ok2d, a, pairs=None):
             except Exception as e:
                 d = [('exc', None, where(e))]
             for field, e, g in d:
-                vs.append(V(f'rt:mdl_mol:{field}', f'rt:{pair}:mdl_mol:{field}:{a["smiles"]}|{a["form"]}',
+                vs.append(V(f'rt:mdl_mol:{field}', f'rt:{pair}:mdl_mol:{field}:{tag}',
                             f'{pair[:pair.index(">")]} -> mdl_mol: {field} not preserved for {a["smiles"]}: {e!r} / {g!r}', wit, {'expected': e, 'got': g}))
     return vs, info
 
@@ -205,9 +211,10 @@ def w_mols(items):
     env.setup()
     from oracles import o11_records as O
     n, keys, samples, vs, st = 0, [], [], [], {'filtered_explicit_h': 0, 'no2d': 0, 'stereo_checked': 0, 'unparsed': 0}
-    for s, form in items:
+    for s, form, *off in items:
+        off = off[0] if off else None
         try:
-            m, ok2d, binfo = build(s, form)
+            m, ok2d, binfo = build(s, form, off)
         except Exception:
             st['unparsed'] += 1   # not a molecule of the library: outside the domain (C03's business)
             continue
@@ -215,7 +222,7 @@ def w_mols(items):
             st[k] = st.get(k, 0) + x
         if binfo.get('rdkit2d_unavailable'):
             continue
-        a = {'smiles': s, 'form': form, 'title': f'rec {len(s)}', 'meta': {'source': s, 'note': 'line one\nline two'}}
+        a = {'smiles': s, 'form': form, 'offset': off, 'title': f'rec {len(s)}', 'meta': {'source': s, 'note': 'line one\nline two'}}
         v, info = check_mol_obj(O, m, ok2d, a)
         vs.extend(v)
         for k in info:
@@ -223,7 +230,7 @@ def w_mols(items):
         n += len(P())
         if len(m) >= 2:
             c = str(m)
-            keys.extend(f'{p}|{form}|{c}' for p in P())
+            keys.extend(f'{p}|{form}|{off}|{c}' for p in P())
         if len(samples) < 2:
             samples.append({'contract': 'write->read molecule, 5 pairs', 'smiles': s, 'form': form, 'stereo_compared': bool(info['stereo_checked'])})
     return n, keys, samples, vs, st
@@ -505,8 +512,14 @@ def w_multi(items):
         pair, spec = a['pair'], a['objspec']
         fmt = P()[pair][2]
         r = random.Random(f'{env.SEED}:{pair}:{spec["seed"]}')
-        text = write(pair, multi_objects(spec))
-        sigs = read_all(pair, text)
+        objs = multi_objects(spec)
+        try:
+            text = write(pair, objs)
+            sigs = read_all(pair, text)
+        except Exception as e:
+            vs.append(V(f'multi:{pair}:exc', f'multi:{pair}:exc:{where(e)}', f'{pair}: {where(e)} on an undamaged {spec["n"]}-record file', {'replay': 'none', 'objspec': spec},
+                        repr(e)))
+            continue
         if len(sigs) != spec['n']:
             vs.append(V(f'multi:{pair}:count', f'multi:{pair}:count:{spec}', f'{pair}: {spec["n"]} records written, {len(sigs)} read', {'objspec': spec}, len(sigs)))
             continue
@@ -535,7 +548,7 @@ def w_multi(items):
     # keep the smallest witness per family already here (texts are big)
     best = {}
     for v in vs:
-        if v[0] not in best or len(v[3]['args']['text']) < len(best[v[0]][3]['args']['text']):
+        if v[0] not in best or len(repr(v[3])) < len(repr(best[v[0]][3])):
             best[v[0]] = v
     return n, list(set(keys)), samples, list(best.values()), st
 
@@ -557,7 +570,11 @@ def check_index(a):
             shutil.copy(a['path'], path)
             text = open(path).read()
         else:
-            text = a.get('text') or write(pair, multi_objects(a['objspec']))
+            objs = multi_objects(a['objspec'])
+            try:
+                text = write(pair, objs)
+            except Exception as e:
+                return [V(f'multi:{pair}:exc', f'multi:{pair}:exc:{where(e)}', f'{pair}: {where(e)} while writing {a["objspec"]}', wit, repr(e))], 0
             with open(path, 'w') as f:
                 f.write(text)
         kw = a.get('kw') or {'calc_cis_trans': True}
@@ -690,8 +707,17 @@ def check_rdkit_block(a):
     Chem.Kekulize(rd, clearAromaticFlags=True)
     AllChem.Compute2DCoords(rd)
     block = Chem.MolToMolBlock(rd, forceV3000=a['v3000'], kekulize=False)
+    if a.get('mchg_only'):
+        # other writers leave the charge column of the atom block 0 and give charges only as M  CHG (which supersedes the column)
+        ls = block.split('\n')
+        na = int(ls[3][:3])
+        if not any(x.startswith('M  CHG') for x in ls):
+            return None, {}
+        for i in range(4, 4 + na):
+            ls[i] = ls[i][:36] + '  0' + ls[i][39:]
+        block = '\n'.join(ls)
     wit = {'replay': 'check_rdkit_block', 'args': a}
-    tag = f'{"V3000" if a["v3000"] else "V2000"}:{a["smiles"]}'
+    tag = f'{"V3000" if a["v3000"] else "V2000-MCHG-only" if a.get("mchg_only") else "V2000"}:{a["smiles"]}'
     vs = []
     ms = []
     try:
@@ -751,16 +777,16 @@ def w_rdkit(items):
     from rdkit import Chem
     n, keys, samples, vs, st = 0, [], [], [], {'gap_hits': 0, 'stereo_blocks': 0, 'rdkit_rejected': 0}
     for s in items:
-        for v3 in (False, True):
-            v, info = check_rdkit_block({'smiles': s, 'v3000': v3})
+        for v3, mchg in ((False, False), (True, False), (False, True)):
+            v, info = check_rdkit_block({'smiles': s, 'v3000': v3, 'mchg_only': mchg})
             if v is None:
-                st['rdkit_rejected'] += 1
+                st['rdkit_rejected'] += not mchg
                 continue
             vs.extend(v)
             for k, x in info.items():
                 st[k] += x
             n += 2
-            keys.append(f'rdkit|{v3}|{Chem.CanonSmiles(s)}')
+            keys.append(f'rdkit|{v3}|{mchg}|{Chem.CanonSmiles(s)}')
         if len(samples) < 1:
             samples.append({'contract': 'RDKit-written molblock (V2000, V3000) read with the same atoms/bonds/configuration', 'smiles': s})
     return n, keys, samples, vs, st
@@ -797,6 +823,7 @@ def bounded(run):
     # 1. molecules: corpus (Kekule with 2D coordinates -> everything incl. configuration; aromatic form -> constitution, order 4)
     mols = [(s, 'kekule') for s in corpus] + [(s, 'aromatic') for s in corpus[:n_corpus // 3]]
     mols += [(s, 'kekule-rdkit2d') for s in corpus + STEREO if any(c in s for c in '@/\\')]
+    mols += [(s, 'kekule', r.choice([0, 90, 400, 1500])) for s in corpus[::3] + STEREO]
     deco = decorated_smiles(r, corpus, 40 if quick else 400)
     mols += [(s, 'kekule') for s in deco] + [(s, 'aromatic') for s in COORD]
     # decorated atlas <= 6 nodes -> SMILES text of each decorated graph (the atlas molecules are rebuilt in the worker from text)
@@ -879,6 +906,8 @@ def bounded(run):
 
     # 7. RDKit-written molblocks
     rk = corpus + decorated_smiles(D.rnd('c11-rdkit'), corpus, 30 if quick else 300)
+    rk += ['[Ti+4].[Zr+4].C.[Pb+4].[C-4].[Si-4].[Fe+4].[Ti+4].[Zr+4].[C-4].O.[Si-4].[Pb+4]', '.'.join(['[Na+]', '[Cl-]'] * 9), '.'.join(['[Fe+4]'] * 17),
+           'C[N+](C)(C)C.' * 9 + '[O-2].[O-2].[O-2].[O-2].[OH-]', '.'.join(['[13CH4]'] * 9 + ['[2H]O[2H]'] * 3), '.'.join(['[CH3]'] * 10)]
     rk = [s for s in rk if '~' not in s]
     for c in chunks(rk, 12):
         tasks.append((w_rdkit, c))
